@@ -720,3 +720,45 @@ def check_C12(chk):
                           constants={"AcceptD9": bool(known)},
                           describe=lambda ev: "TLS configuration %s: send() returned %s (%s), server application received %s octets" % (
                               json.dumps(ev.get("cfg")), ev.get("res"), ev.get("err"), ev.get("app_bytes")))
+
+
+UTIL_INV = ["NothingSubmittedWhenNotReady", "ExitZeroIffAllSucceeded", "AtMostOnePrintJob", "CheckComesFirst"]
+OPT_CLASSES = {"true", "false", "int", "overflow", "keyword", "eqinside", "noeq"}
+
+
+def util_describe(ev):
+    k = ev.get("ev")
+    if k == "ureq":
+        return ("a request sent by ipputil is not the one its command line describes (or must not have been sent): "
+                "IPP header %s, document intact %s (%s octets)" % (json.dumps(ev.get("hdr_ipp")), ev.get("pay_ok"), ev.get("paylen")))
+    if k == "uexit":
+        return "ipputil exited with status %s, which does not match the outcome of its exchanges" % ev.get("code")
+    return "event %s not accepted" % k
+
+
+def check_C18(chk):
+    q = chk.tier == "quick"
+    chk.rule = ("sessions = command lines {-n on/off} x {file, stdin} x {0 B, small, 0.3-1.8 MiB} x job name x user name x "
+                "option lists of 0..1 (0..2 thorough) over 7 text classes (true, false, i32 incl. +5/007/extremes, "
+                "overflowing / non-decimal, keyword, value containing '=', no '=') x extra header, crossed with printer "
+                "scripts {ready, stopped, blocking reason alone / in a set, IPP error, HTTP error} x Print-Job reply {ok, "
+                "IPP error, HTTP error}; enumerated by TLC; quick runs a seeded stride of ~1400 sessions, thorough all; one "
+                "evaluation = one run of the real ipputil binary; judged by Trace_Util")
+    chk.assumptions = ["ipputil is built from /repo (cargo build -p ipp-util, target dir under /verif)", "loopback server of the harness",
+                       "responses produced by the library's encoder (judged by C03)"]
+    build_harness()
+    binp = build_ipputil()
+    wd = workdir("C18")
+    cases = os.path.join(wd, "cases.ndjson")
+    r = mc("C18", "mc_util", "MC_Util.tla", dict(NoCheckFlag="normal", OptClasses=OPT_CLASSES, MaxOpts=1 if q else 2),
+           UTIL_INV + ["Gen"], properties=["Terminates"], case_file=cases, timeout=3000)
+    chk.add_mc(r, "MC_Util MaxOpts=%d" % (1 if q else 2))
+    out = os.path.join(wd, "run")
+    harness("vh", ["util", "--out", out, "--seed", chk.seed, "--cases", cases, "--bin", binp,
+                   "--limit", 1400 if q else 10**9], timeout=7200)
+    run_sample(chk, out)
+    validate_with_retries(chk, "trace_util", "Trace_Util.tla", os.path.join(out, "trace.ndjson"),
+                          os.path.join(out, "trace.side.ndjson"), describe=util_describe, drop_runs=True,
+                          block=(("ustart",), ("ustart",)))
+    chk.extra["events_validated"] = chk.traces
+    chk.traces = max(0, chk.evaluations - len(chk.violations))
